@@ -108,6 +108,18 @@ fn make_subjects(a: &assets::Asset, notes: &mut Vec<String>) -> Vec<Subject> {
             chain3_bytes = Some(a3);
         }
     }
+    // an asset whose own manifest has a signed inputTo ingredient (and a componentOf one): the nested
+    // manifests must travel with it whatever the nested relationship is
+    let mut nested_rel_bytes: Option<Vec<u8>> = None;
+    {
+        let j1 = json!({"title": "nested input", "relationship": "inputTo"}).to_string();
+        let j2 = json!({"title": "nested component", "relationship": "componentOf"}).to_string();
+        let second = defgen::sign_simple(a.format, &a.bytes, "other src", "ps256", create(), &[]).unwrap_or_else(|_| valid.clone());
+        if let Ok(n) = defgen::sign_simple(a.format, &a.bytes, "has nested inputTo", "es256", create(), &[(j1.as_str(), a.format, valid.as_slice()), (j2.as_str(), a.format, second.as_slice())]) {
+            out.push(mk("nested-inputTo", n.clone(), true, String::new()));
+            nested_rel_bytes = Some(n);
+        }
+    }
     // tampered content / tampered store (positions chosen with the independent parser)
     if let Ok(p) = ifmt::parse(a.format, &valid) {
         if let Some(c) = p.containers.first() {
@@ -209,7 +221,7 @@ fn make_subjects(a: &assets::Asset, notes: &mut Vec<String>) -> Vec<Subject> {
         }
     }
     // ingredient archives holding the valid subject and the depth-3 chain
-    for (state, held) in [("archive", Some(valid.clone())), ("archive-chain3", chain3_bytes.clone())] {
+    for (state, held) in [("archive", Some(valid.clone())), ("archive-chain3", chain3_bytes.clone()), ("archive-nested-inputTo", nested_rel_bytes.clone())] {
         let Some(valid) = held else { continue };
         let c = defgen::context(true, false, false, &json!({"verify": {"verify_trust": true, "remote_manifest_fetch": false}, "builder": {"generate_c2pa_archive": true}}));
         if let Ok(mut b) = Builder::from_context(c).with_definition(json!({"title": "archiver"})) {
